@@ -99,6 +99,9 @@ pub fn eval_cgrfile(c: &CgrFileCase, model: &Model, work: &str, uid: &str) -> Op
     let inp = write_input(work, uid, &c.recs, &c.container);
     let outp = format!("{}/cgrout_{}.txt", work, uid);
     let _ = std::fs::remove_file(&outp);
+    if stale_case(&c.req()) {
+        plant_file(&outp, exp.len());
+    }
     let res = catch(std::panic::AssertUnwindSafe(|| match c.k {
         None => {
             let mut cg = CgrComputer::new(inp.clone(), outp.clone(), c.size);
